@@ -796,7 +796,25 @@ impl Transformer {
         }
 
         let mut has_svg_element = false;
-        if let (pre_svg, Some(first_svg), remain) = events.partition("svg") {
+        // The root element is the *first* element of the document. An `<svg>` further
+        // in (e.g. an inset among the elements of a fragment) is not the document root,
+        // and such a fragment gets neither root attributes nor auto-styles.
+        let is_element = |ev: &OutputEvent| {
+            matches!(
+                ev,
+                OutputEvent::Start(_)
+                    | OutputEvent::Empty(_)
+                    | OutputEvent::End(_)
+                    | OutputEvent::Other(
+                        quick_xml::events::Event::Start(_)
+                            | quick_xml::events::Event::Empty(_)
+                            | quick_xml::events::Event::End(_)
+                    )
+            )
+        };
+        let (pre_svg, first_svg, remain) = events.partition("svg");
+        let first_svg = first_svg.filter(|_| !pre_svg.clone().into_iter().any(|ev| is_element(&ev)));
+        if let Some(first_svg) = first_svg {
             pre_svg.write_to(writer)?;
             // write_root_svg always writes a start tag, so an empty root element
             // (`<svg/>`) needs a matching end tag (after any generated styles).
